@@ -787,6 +787,88 @@ class World:
             surf.bsdf = keep
         return ok
 
+
+    # ---- C19: a short optimisation as one more edit (stub driver)
+    def op_optimize(self, op):
+        from optiland.optimization import (OptimizationProblem,
+                                           OptimizerGeneric, LeastSquares)
+        from sim import simopt
+        self.need_lens()
+        m = self.model
+        prob = OptimizationProblem()
+        used = []
+        with quiet(), warnings.catch_warnings():
+            warnings.simplefilter('ignore')
+            prob.add_operand('f2', op.get('target', 50.0), 1,
+                             {'optic': self.lens})
+            for v in op['vars']:
+                t = v['type']
+                k = m.idx(v['k'], 1, m.n - 2)
+                if t in ('radius', 'conic') and m.is_plane(k):
+                    continue
+                if t == 'index' and m.surfs[k]['mat'][0] not in ('ideal',
+                                                                 'air'):
+                    continue
+                if any(p['attr'] == t and p['dst'] == k for p in m.pickups) \
+                        or (t == 'thickness' and any(
+                            s['k'] - 1 == k for s in m.solves)):
+                    continue
+                kw = {'surface_number': k}
+                if t == 'index':
+                    kw['wavelength'] = PROBE_WLS[0]
+                if t in ('tilt', 'decenter'):
+                    kw['axis'] = v.get('axis', 'x')
+                prob.add_variable(self.lens, t,
+                                  apply_scaling=bool(v.get('scaled', True)),
+                                  **kw)
+                used.append((t, k, kw))
+        if not used:
+            raise NotApplicable('no admissible variable')
+        drv = simopt.StubDriver(op.get('plan', []),
+                                [v.get('step', 1e-3) for v in op['vars']],
+                                self.stats['probes'])
+        cls = LeastSquares if op.get('front') == 'lsq' else OptimizerGeneric
+        try:
+            with simopt.patched(drv), quiet(), warnings.catch_warnings():
+                warnings.simplefilter('ignore')
+                cls(prob).optimize(disp=False)
+        except Exception:
+            self.probe('optimize_edit_raised')
+        self.stats['state_changes'] += 1
+        self.probe('optimize_edit')
+        # the model follows the lens for what the optimiser touched (C19
+        # compares the lens with its reloaded copy, not with the model)
+        sg = self.lens.surface_group
+        zs = [f(v) for v in sg.positions]
+        if not all(map(math.isfinite, zs[1:])):
+            raise Abort('optimiser left the lens at infinity')
+        for k in range(1, m.n - 1):
+            m.surfs[k]['t'] = zs[k + 1] - zs[k]
+        for t, k, kw in used:
+            surf = sg.surfaces[k]
+            if t == 'radius':
+                m.set_radius(k, float(sg.radii[k]))
+            elif t == 'conic':
+                m.surfs[k]['conic'] = float(sg.conic[k])
+            elif t == 'index':
+                m.surfs[k]['mat'] = ['ideal', f(self.lens.n(PROBE_WLS[0])[k]),
+                                     0]
+            elif t == 'tilt':
+                m.surfs[k]['r' + kw['axis']] = f(getattr(
+                    surf.geometry.cs, 'r' + kw['axis']))
+            elif t == 'decenter':
+                m.surfs[k]['d' + kw['axis']] = f(getattr(
+                    surf.geometry.cs, kw['axis']))
+        if m.pickups or m.solves:
+            # update_optics ran inside the objective: take the result over
+            for k in range(1, m.n - 1):
+                if not m.is_plane(k) or math.isfinite(float(sg.radii[k])):
+                    if math.isfinite(float(sg.radii[k])):
+                        m.set_radius(k, float(sg.radii[k]))
+                    if m.surfs[k]['conic'] is not None:
+                        m.surfs[k]['conic'] = float(sg.conic[k])
+        m._touch_scale()
+
     # ---- structure edits with no documented placement semantics
     def op_insert(self, op):
         self.need_lens()
@@ -1121,6 +1203,22 @@ def gen_edit(ch, w, sw):
                                      'marginal_ray', 'chief_ray'], 0.25,
                                     at_least=1)
         return op
+    if kind == 'optimize':
+        from engines import optsim
+        vs = []
+        for _ in range(ch.randint(1, 3)):
+            t = ch.pick(['radius', 'thickness', 'conic', 'index', 'tilt',
+                         'decenter'], tag='ovar')
+            sc = ch.chance(0.5)
+            v = {'type': t, 'k': ch.randint(1, max(1, n - 2)), 'scaled': sc,
+                 'step': optsim.STEP[t][1 if sc else 0]}
+            if t in ('tilt', 'decenter'):
+                v['axis'] = ch.pick(['x', 'y'])
+            vs.append(v)
+        return {'op': 'optimize', 'vars': vs,
+                'front': ch.pick(['generic', 'lsq']),
+                'target': ch.rounded(ch.uniform(20, 200), 4),
+                'plan': optsim.gen_plan(ch, len(vs), ch.randint(1, 6))}
     if kind == 'ckpt':
         nr = ch.randint(2, 7)
         rays = []
@@ -1172,7 +1270,7 @@ def swarm(ch, prop, cfg):
         feats = lensgen.pick_features(ch, C19_FEATS, 0.3)
         if 'bsdf' in lensgen.ALL_FEATURES and ch.chance(0.08):
             feats.add('bsdf')
-        kinds = list(EDIT_KINDS) + ['scale']
+        kinds = list(EDIT_KINDS) + ['scale', 'optimize']
         enabled = ['ckpt'] + ch.subset(kinds, 0.5, at_least=1)
         weights = {k: ch.uniform(0.3, 2.0) for k in enabled}
         weights['ckpt'] = ch.uniform(1.0, 3.0)
